@@ -122,8 +122,11 @@ func c20Run(ctx *core.Ctx) {
 			emit(c20Case{Kind: "accept", Accept: append([]string{}, parts...), Direct: true}) // end with Shutdown instead of Close
 		})
 		// connections that are still in their (implicit) TLS handshake, or idle, when Close / Shutdown fires
-		for _, st := range []string{"tls-stalled", "tls-half", "plain-idle", "plain-greeted", "starttls-stalled", "starttls-half", "just-accepted", "accepted-at-close"} {
+		for _, st := range []string{"tls-stalled", "tls-half", "plain-idle", "plain-greeted", "starttls-stalled", "starttls-half", "just-accepted", "accepted-at-close", "write-blocked"} {
 			for _, how := range []string{"Close", "Shutdown"} {
+				if st == "write-blocked" && how == "Shutdown" {
+					continue // Shutdown waits for the connection, and this one cannot finish by itself
+				}
 				nrep := 3
 				if st == "just-accepted" {
 					nrep = 40 // schedule dependent: the closer races the start of the connection's goroutine
@@ -1151,6 +1154,12 @@ func c20Stalled(ctx *core.Ctx, c c20Case) {
 		buf := make([]byte, 256)
 		cEnd.Read(buf)
 		cEnd.Write([]byte("EHLO c.test\r\n"))
+	case "write-blocked":
+		// the peer stops reading with the window full: the server's next reply cannot be written
+		buf := make([]byte, 256)
+		cEnd.Read(buf)
+		sEnd.BlockWrites()
+		cEnd.Write([]byte("EHLO c.test\r\n"))
 	case "starttls-stalled", "starttls-half":
 		// STARTTLS is accepted (220) and then the peer never sends / never finishes its ClientHello:
 		// the server waits inside the handshake
@@ -1171,6 +1180,20 @@ func c20Stalled(ctx *core.Ctx, c c20Case) {
 		// Accept has just handed the connection out: its goroutine may not even have started
 		for i := 0; i < int(c.Seed%4)*3; i++ {
 			runtime.Gosched()
+		}
+	} else if c.Transfer == "write-blocked" {
+		parked := false
+		for i := 0; i < 20000 && !parked; i++ {
+			parked = sEnd.WritersParked() > 0
+			if !parked {
+				time.Sleep(100 * time.Microsecond)
+			}
+		}
+		if !parked {
+			cEnd.Close()
+			rig.CloseBounded()
+			ctx.Inconclusive("C20 stalled: the server did not start writing its reply")
+			return
 		}
 	} else if idle, err := cEnd.WaitPeerIdle(wire.Watchdog); err != nil || !idle {
 		cEnd.Close()
